@@ -943,20 +943,17 @@ pub fn str_from_code(x: i32) -> SmtString {
 /// assert_eq!(str_to_int(&SmtString::from("101aaabb")), -1);
 /// ```
 pub fn str_to_int(s: &SmtString) -> i32 {
-    if s.is_empty() {
+    // the result is -1 unless all characters are digits, however long s is
+    if s.is_empty() || !s.s.iter().all(|&d| char_is_digit(d)) {
         return -1;
     }
 
     let mut x: i32 = 0;
     for &d in &s.s {
-        if char_is_digit(d) {
-            x = x
-                .checked_mul(10)
-                .and_then(|y| y.checked_add(d as i32 - '0' as i32))
-                .expect("Arithmetic overflow in str_to_int");
-        } else {
-            return -1;
-        }
+        x = x
+            .checked_mul(10)
+            .and_then(|y| y.checked_add(d as i32 - '0' as i32))
+            .expect("Arithmetic overflow in str_to_int");
     }
     x
 }
